@@ -389,7 +389,9 @@ def fit_scipy(
         fcn.vm.set_all(xn)  # make sure fit results same as variable
         print(s)
         ndf = s.x.shape[0]
-        min_nll = s.fun
+        # after a failed line search scipy can return the value of a trial
+        # point together with the previous iterate: use the NLL of s.x
+        min_nll = float(fcn({}))
         success = s.success
     elif method in ["Newton-CG", "trust-krylov", "trust-ncg", "trust-exact"]:
         fcn.vm.set_bound(bounds_dict)
